@@ -817,6 +817,10 @@ class Interp:
             if len(real) == 1 and False:
                 pass
             return ('temp', qt(n))
+        if k == 'LambdaExpr':
+            # a closure: called through operator() below; captures share the enclosing environment (the code base only uses
+            # capture-less helpers and by-reference captures of locals)
+            return Obj('(lambda)', {'node': n, 'env': env}, 'lambda')
         if k == 'UnaryExprOrTypeTraitExpr':
             at = (n.get('argType') or {}).get('qualType')
             ti = tinfo(at, self.idx) if at else None
@@ -1094,6 +1098,26 @@ class Interp:
             if lv[0] == 'val':
                 return lv[1]
             return Moved(lv, self.load(lv, env))
+        if n['kind'] == 'CXXOperatorCallExpr' and name == 'operator()' and args:
+            fo = self.expr(args[0], env)
+            if isinstance(fo, Obj) and fo.cls == '(lambda)':
+                ln = fo.fields['node']
+                meth = next((m_ for r_ in walk(ln) if r_.get('kind') == 'CXXRecordDecl' for m_ in children(r_)
+                             if m_.get('kind') == 'CXXMethodDecl' and m_.get('name') == 'operator()'), None)
+                body = next((c_ for c_ in reversed(children(ln)) if c_.get('kind') == 'CompoundStmt'), None)
+                if meth is None or body is None:
+                    raise AnalysisBroken('lambda without a body at %s' % pos(n))
+                prms = [c_ for c_ in children(meth) if c_.get('kind') == 'ParmVarDecl']
+                vals = [self.expr(a_, env) for a_ in args[1:]]
+                env2 = {'this': fo.fields['env'].get('this'), 'locals': dict(fo.fields['env'].get('locals', {}))}
+                for p_, v_ in zip(prms, vals):
+                    ti_ = tinfo(p_, self.idx)
+                    env2['locals'][p_['id']] = self.convert(v_, ti_[0], ti_[1], n) if ti_ and isinstance(v_, IV) else v_
+                try:
+                    self.stmt(body, env2)
+                except _Return as r_:
+                    return r_.v
+                return None
         if n['kind'] == 'CXXOperatorCallExpr':
             if name in ('operator->', 'operator*'):
                 v = self.expr(args[0], env)
